@@ -21,6 +21,12 @@ static void init_hv() {
   HV.push_back({"array", "[\"HS256\"]", JWT_ALG_HS256}); HV.push_back({"object", "{\"a\":\"RS256\"}", JWT_ALG_RS256});
   // appended later (indices of the entries above are referenced by saved replay files: append only)
   HV.push_back({"none-nul-HS256", "\"none\\u0000HS256\"", JWT_ALG_NONE}); HV.push_back({"HS256-nul", "\"HS256\\u0000x\"", JWT_ALG_HS256}); HV.push_back({"ES256-nul", "\"ES256\\u0000\"", JWT_ALG_ES256});
+  // a known name followed by exactly 256 / 512 / 65536 more characters (a name compared with a narrow length sees only the name)
+  static std::string longs[8]; int m = 0;
+  for (auto nm : {std::make_pair("HS256", JWT_ALG_HS256), std::make_pair("RS256", JWT_ALG_RS256), std::make_pair("none", JWT_ALG_NONE), std::make_pair("ES256", JWT_ALG_ES256)}) {
+    longs[m] = std::string("\"") + nm.first + std::string(256, 'A') + "\""; static std::string labels[8]; labels[m] = std::string(nm.first) + "+256chars"; HV.push_back({labels[m].c_str(), longs[m].c_str(), nm.second}); m++; }
+  longs[m] = "\"HS256" + std::string(512, 'A') + "\""; HV.push_back({"HS256+512chars", longs[m].c_str(), JWT_ALG_HS256}); m++;
+  longs[m] = "\"none" + std::string(65536, 'A') + "\""; HV.push_back({"none+65536chars", longs[m].c_str(), JWT_ALG_NONE}); m++;
 }
 static bool hv_exact(const HeaderVar &h, jwt_alg_t a) {  // header names exactly algorithm a
   const char *n = jwt_alg_str(a); if (!n || !h.alg_json) return false; return std::string("\"") + n + "\"" == h.alg_json;
